@@ -284,12 +284,14 @@ pub fn structural_damage(img: &mut Image, rng: &mut Rng) -> Option<Value> {
                 datas.push(img.files.remove(&wal_name(*n))?);
             }
             let top = rng.chance(1, 3);
+            // sometimes astronomically large gaps: nothing may iterate over file NUMBERS
+            let huge = !top && rng.chance(1, 3);
             let mut cur = if top { u64::MAX - (nums.len() as u64) * 3 } else { rng.below(1 << 40) };
             let mut newnames = Vec::new();
             for d in datas {
                 img.files.insert(wal_name(cur), d);
                 newnames.push(wal_name(cur));
-                cur = cur.saturating_add(rng.range(1, 3));
+                cur = cur.saturating_add(if huge { 1u64 << rng.range(30, 58) } else { rng.range(1, 3) });
             }
             Some(json!({"kind": "renumber-with-gaps", "new_names": newnames}))
         }
